@@ -555,6 +555,9 @@ var cutConds = []cutCond{
 	{"error-wrapping-eof", &net.OpError{Op: "read", Net: "tcp", Err: io.EOF}},
 	{"rst-cancel", errors.New("stream error: stream ID 1; CANCEL; received from peer")},
 	{"rst-internal", errors.New("stream error: stream ID 1; INTERNAL_ERROR; received from peer")},
+	// a reset with NO_ERROR before the body is complete (RFC 9113 8.1.1 allows
+	// it after a complete response only): still a body that was cut short
+	{"rst-no-error", errors.New("stream error: stream ID 1; NO_ERROR; received from peer")},
 }
 
 // withoutRejected drops the placeholders a keep-receiving handler records for
